@@ -112,12 +112,28 @@ pub fn ns_worker(spec_path: &str, out_path: &str) -> i32 {
     for p in ["/usr/bin/getent", "/usr/bin/id", "/usr/sbin/usermod", "/usr/bin/chown", "/usr/bin/chmod", "/usr/sbin/adduser", "/usr/sbin/useradd", "/usr/sbin/groupadd"] {
       if std::path::Path::new(p).exists() { sh("mount", &["--bind", "/mnt/stub", p])?; }
     }
+    let stale_config: Vec<u8> = {
+      let mut t = String::from("{\n  \"mappings\": [\n");
+      for i in 0..4000 { t.push_str(&format!("    {{\n      \"from\": [\n        \"F13\"\n      ],\n      \"to\": [\n        \"F14\"\n      ],\n      \"repeat\": \"Normal\",\n      \"absorbing\": []\n    }}{}\n", if i == 3999 { "" } else { "," })); }
+      t.push_str("  ]\n}"); t.into_bytes() };
+    let stale_unit: Vec<u8> = {
+      let mut t = String::from("[Unit]\nDescription=Totalmapper\n\n[Service]\nType=simple\nUser=totalmapper\nGroup=input\nExecStart=/usr/bin/totalmapper remap --verbose --layout-file /etc/totalmapper.json --only-if-keyboard ");
+      for i in 0..20000 { t.push_str(&format!("--exclude STALE-{}-Receiver-Mouse ", i)); }
+      t.push_str("--dev-file /%I\n"); t.into_bytes() };
     let mut cases = vec![];
     for c in spec["cases"].as_array().unwrap() {
       let excludes: Vec<String> = c["excludes"].as_array().unwrap().iter().map(|x| x.as_str().unwrap().to_string()).collect();
       let install = c["install"].as_bool().unwrap_or(false);
-      let _ = std::fs::remove_file("/etc/totalmapper.json");
-      let _ = std::fs::remove_file("/etc/systemd/system/totalmapper@.service");
+      // An installer runs over whatever the previous installation left behind.  Before every install case both files hold
+      // a LONG earlier version (a big valid layout; the unit of an installation with thousands of patterns): an installer
+      // that forgets to truncate leaves its tail behind, one that writes nothing leaves the stale file (recognised below).
+      if install {
+        std::fs::write("/etc/totalmapper.json", &stale_config).map_err(|e| e.to_string())?;
+        std::fs::write("/etc/systemd/system/totalmapper@.service", &stale_unit).map_err(|e| e.to_string())?;
+      } else {
+        let _ = std::fs::remove_file("/etc/totalmapper.json");
+        let _ = std::fs::remove_file("/etc/systemd/system/totalmapper@.service");
+      }
       let mut cmd = Command::new("/mnt/totalmapper");
       cmd.arg(if install { "add_systemd_service" } else { "remap" });
       if let Some(h) = c["file"].as_str() { std::fs::write("/mnt/layout.json", unhex(h)).map_err(|e| e.to_string())?; cmd.args(["--layout-file", "/mnt/layout.json"]); }
@@ -128,8 +144,8 @@ pub fn ns_worker(spec_path: &str, out_path: &str) -> i32 {
       let mut case = json!({"status": o.status.code(), "signal": o.status.signal(),
         "stdout": String::from_utf8_lossy(&o.stdout).chars().take(2000).collect::<String>(), "stderr": String::from_utf8_lossy(&o.stderr).chars().take(2000).collect::<String>()});
       if install {
-        if let Ok(b) = std::fs::read("/etc/totalmapper.json") { case["config"] = json!(hex(&b)); }
-        if let Ok(b) = std::fs::read("/etc/systemd/system/totalmapper@.service") { case["unit"] = json!(hex(&b)); }
+        if let Ok(b) = std::fs::read("/etc/totalmapper.json") { if b != stale_config { case["config"] = json!(hex(&b)); } }
+        if let Ok(b) = std::fs::read("/etc/systemd/system/totalmapper@.service") { if b != stale_unit { case["unit"] = json!(hex(&b)); } }
         if case["config"].is_string() {
           let o = Command::new("/mnt/totalmapper").args(["remap", "--layout-file", "/etc/totalmapper.json", "--only-if-keyboard", "--dev-file", "/nonexistent/event0"]).output().map_err(|e| e.to_string())?;
           case["service_load"] = json!([o.status.code(), String::from_utf8_lossy(&o.stdout).chars().take(500).collect::<String>()]);
